@@ -145,7 +145,8 @@ def build(kind, rng):
         m = GaussianMultivariate() if name == 'default' else GaussianMultivariate(distribution=cu.GaussianUnivariate if rng.random() < 0.5 else cu.BetaUnivariate)
         m.fit(df)
         if name == 'cond':
-            cond = {df.columns[0]: float(df.iloc[0, 0])}
+            k = 1 + int(rng.integers(max(1, df.shape[1] - 1)))          # one or several conditioned columns
+            cond = {c: float(df[c].iloc[0]) for c in list(df.columns)[:k]}
             return m, lambda mod, n: mod.sample(n, conditions=dict(cond))
         return m, lambda mod, n: mod.sample(n)
     t = {'d': 3, 'n': 80, 'corr': 'gram', 'marginals': ['normal', 'gamma', 'beta'], 'names': 'str',
@@ -246,6 +247,19 @@ def _history(spec, ctx):
         for o, op in zip([o for o in A if o and o[0] == 'sample'], [op for op in ops if op[0] == 'sample']):
             if o[1] == i:
                 sized.setdefault(op[2], []).append(o[2])
+    _drain(ctx, where)
+    # after this history, re-seeding restarts the stream exactly as on a copy that never sampled: what a model
+    # draws depends on its fitted parameters, the seed and the calls made since seeding - not on earlier sampling
+    for i, m in enumerate(models):
+        s_new = int(rng.integers(1 << 30))
+        twin = copy.deepcopy(fresh[i])
+        m.set_random_state(_seed_obj(spec['seed_kinds'][i], s_new))
+        twin.set_random_state(_seed_obj(spec['seed_kinds'][i], s_new))
+        oka, xa = ctx.call(samplers_[i], m, 3)
+        okb, xb = ctx.call(samplers_[i], twin, 3)
+        ctx.check(oka == okb and (not oka or _as_bytes(xa) == _as_bytes(xb)), 'history.reseed-forgets-history',
+                  'C15:stream-after-reseeding-depends-on-earlier-sampling',
+                  lambda: dict(where, model=spec['kinds'][i], seed_kind=spec['seed_kinds'][i]))
     _drain(ctx, where)
     C = run([copy.deepcopy(f) for f in fresh], do_models=False)
     ga = [o for o in A if o and o[0] == 'global']
@@ -358,6 +372,25 @@ def _raises(spec, ctx):
         ctx.check(digest() == before, 'global-state-unchanged', 'C15:seeded-sample-changed-global-state:on-raise',
                   {'sampler': type(mdl).__name__, 'unfitted': True, 'raised': (not okm) and type(e).__name__})
     _drain(ctx, {'mode': 'raises'})
+    # ... and after all those failures seeded sampling is still seeded: every sampler class replays its stream after
+    # re-seeding and leaves the global state alone (a guard released only on normal return would show here)
+    for kind in ('u:GaussianUnivariate', 'b:' + fam, 'g:class', 'v:direct'):
+        okb, res = ctx.call(build, kind, rng)
+        if not okb:
+            continue
+        mdl, sampler = res
+        s0 = int(rng.integers(1 << 30))
+        seed_global(rng.integers(1 << 30))
+        before = digest()
+        mdl.set_random_state(s0)
+        ok1, a = ctx.call(sampler, mdl, 4)
+        mdl.set_random_state(s0)
+        ok2, b = ctx.call(sampler, mdl, 4)
+        ctx.check(ok1 and ok2 and _as_bytes(a) == _as_bytes(b), 'seeded.after-failed-calls', 'C15:seeded-stream-not-replayed-after-a-failed-sample-call',
+                  lambda: {'sampler': kind})
+        ctx.check(digest() == before, 'global-state-unchanged', 'C15:seeded-sample-changed-global-state:after-failed-calls',
+                  {'sampler': kind})
+    _drain(ctx, {'mode': 'raises-then-sample'})
     ctx.nontriv('r|%d' % spec['seed'])
 
 
